@@ -516,3 +516,27 @@ impl Elem for String {
         self[1..].parse().unwrap_or(u32::MAX)
     }
 }
+
+/// Read the logical value through a value, a shared or a mutable reference alike (closure arguments of
+/// the different receiver forms).
+pub trait Peek {
+    fn peek(&self) -> u32;
+}
+impl<T: Elem> Peek for &T {
+    fn peek(&self) -> u32 {
+        (**self).get()
+    }
+}
+impl<T: Elem> Peek for &mut T {
+    fn peek(&self) -> u32 {
+        (**self).get()
+    }
+}
+macro_rules! peek_owned {
+    ($($t:ty),*) => { $( impl Peek for $t { fn peek(&self) -> u32 { self.get() } } )* };
+}
+peek_owned!(Tracked, TrackedZst, u32, u8, u64, [u64; 3], (), (u8, u16), String);
+
+pub fn pk<X: Peek>(x: &X) -> u32 {
+    x.peek()
+}
